@@ -38,7 +38,7 @@ def trees(tier):
                     continue
                 out.append(("B", op, l, r))
     # depth 3: binary over (binary, leaf) and (leaf, binary) for a slice of operator pairs
-    d2 = [t for t in out if t[0] == "B" and t[2][0] == "L" and t[3][0] == "L" and t[2][1] in ("x", "2") and t[3][1] in ("z", "2", "x")]
+    d2 = [t for t in out if t[0] == "B" and t[2][0] == "L" and t[3][0] == "L" and (tier != "quick" or (t[2][1] in ("x", "2") and t[3][1] in ("z", "2", "x")))]
     arith = ["+", "-", "*", "/", "**"]
     for op in arith + ["<", "=="]:
         for b in d2:
